@@ -36,6 +36,7 @@ type faultTask struct {
 	Ops    []string    `json:"ops"`
 	Faults []faultSpec `json:"faults"` // empty: baseline (returns the position census)
 	Probe  bool        `json:"probe"`  // C09: run the liveness probe suite after the history
+	Where  bool        `json:"where,omitempty"` // record call sites of blocked goroutines (diagnostic re-run)
 }
 
 type faultResult struct {
@@ -145,6 +146,8 @@ func runFault(t *faultTask) *faultResult {
 	res := &faultResult{}
 	var w *harness.World
 	phase := "open"
+	vsched.WantWhere = t.Where
+	defer func() { vsched.WantWhere = false }()
 	r := vsched.Run(vsched.Options{}, func() {
 		w = harness.NewWorld(harness.Config{Name: t.Cfg})
 		w.TolerateErrors = true
@@ -346,6 +349,37 @@ func faultPlans(census map[string]int, quick bool) []faultSpec {
 	return out
 }
 
+var wherePools = map[string]*explore.Pool{}
+
+// wherePool is a single-worker pool used for diagnostic re-runs from inside result callbacks.
+func wherePool(id string) *explore.Pool {
+	if p := wherePools[id]; p != nil {
+		return p
+	}
+	p := explore.NewPool(1, "worker", id)
+	wherePools[id] = p
+	return p
+}
+
+// stripLines removes ":<line>" suffixes so signatures survive unrelated edits.
+func stripLines(s string) string {
+	var b strings.Builder
+	for i := 0; i < len(s); i++ {
+		if s[i] == ':' {
+			j := i + 1
+			for j < len(s) && s[j] >= '0' && s[j] <= '9' {
+				j++
+			}
+			if j > i+1 {
+				i = j - 1
+				continue
+			}
+		}
+		b.WriteByte(s[i])
+	}
+	return b.String()
+}
+
 func faultWorker(task []byte) []byte {
 	var t faultTask
 	if err := json.Unmarshal(task, &t); err != nil {
@@ -462,6 +496,18 @@ func runFaultCheck(c *explore.Ctx, id string, cfgs []string, histories [][]strin
 			} else {
 				bad = r.Hang
 			}
+			if len(bad) > 0 && c.Viol+c.Known < 400 {
+				// diagnostic re-run recording call sites (same deterministic execution)
+				t2 := t
+				t2.Where = true
+				pool2 := wherePool(id)
+				pool2.Map([][]byte{explore.MustJSON(t2)}, func(_ int, b2 []byte, err2 error) {
+					var r2 faultResult
+					if err2 == nil && json.Unmarshal(b2, &r2) == nil && len(r2.Blocked) > 0 {
+						r.Blocked = r2.Blocked
+					}
+				})
+			}
 			if len(bad) > 0 {
 				eff := bad[0]
 				if j := strings.Index(eff, "; issued="); j > 0 {
@@ -474,7 +520,9 @@ func runFaultCheck(c *explore.Ctx, id string, cfgs []string, histories [][]strin
 				blockedAt := ""
 				for _, bl := range r.Blocked {
 					if strings.Contains(bl, "g0(main)") {
-						blockedAt = bl
+						if j := strings.Index(bl, " at "); j >= 0 {
+							blockedAt = stripLines(bl[j+4:])
+						}
 					}
 				}
 				c.Report(&explore.Violation{Property: id, Sig: map[string]string{
@@ -489,12 +537,16 @@ func runFaultCheck(c *explore.Ctx, id string, cfgs []string, histories [][]strin
 			break
 		}
 	}
-	c.Coverage["distinct_nontrivial"] = len(surfaced)
+	c.Add("distinct_nontrivial", len(surfaced))
 	c.Coverage["histories"] = len(hs)
 	c.Coverage["plans_planned"] = len(tasks)
 	c.Coverage["faults_by_kind"] = byKind
-	c.Coverage["exhaustive"] = exh && done == len(tasks)
+	c.SetExhaustive(exh && done == len(tasks))
 	c.Coverage["worker_crashes"] = pool.Crashes
+	if p := wherePools[id]; p != nil {
+		p.Close()
+		delete(wherePools, id)
+	}
 	if len(tasks) > 0 {
 		c.Sample(map[string]any{"cfg": tasks[0].Cfg, "history": tasks[0].Ops, "fault": tasks[0].Faults})
 	}
